@@ -118,6 +118,10 @@ type sim struct {
 	opSeq      int            // counts writes / starts / pipe creations
 	startSeq   int            // opSeq at the last server start
 	pipeSince  map[string]int // opSeq at which a pipe was created
+	// lastPos: the positions last reported to the model per pipe. savePipeInfo runs only when a worker made progress; since
+	// the registry is rewritten on every create/delete, the ORDER of position saves and registry saves matters for a pipe
+	// whose position file is the registry file, so a position save is reported only when the positions changed
+	lastPos map[string]string
 	// treeDamaged: the image has zero-filled / cut tree files AND the snapshot that refers to them (finding F47's class):
 	// the blocks the snapshot's roots point to are free and get re-allocated by index (re)builds of other chunks
 	treeDamaged bool
@@ -185,6 +189,10 @@ func (s *sim) fork(dir string) *sim {
 	}
 	for k, v := range s.deleted {
 		c.deleted[k] = v
+	}
+	c.lastPos = map[string]string{}
+	for k, v := range s.lastPos {
+		c.lastPos[k] = v
 	}
 	for k, v := range s.chunkDense {
 		c.chunkDense[k] = v
@@ -516,6 +524,13 @@ func (s *sim) syncPipes() {
 		if !ok || pl == "." {
 			continue
 		}
+		if s.lastPos == nil {
+			s.lastPos = map[string]string{}
+		}
+		if s.lastPos[n] == pl {
+			continue
+		}
+		s.lastPos[n] = pl
 		// savePipeInfo writes the whole map; sorted hex of the dense ids is also the model's order
 		s.expect("pipesave "+vh.HxS(n)+" "+strings.ReplaceAll(pl, ",", " "), true, "ok", "savePipeInfo")
 	}
@@ -594,6 +609,14 @@ func (s *sim) doMkPipe(o hop) {
 	if _, ok := s.pipes[o.Name]; ok {
 		return
 	}
+	for n := range s.pipes {
+		if pipe.VerifC07PipeFileName("", n) == "pipes.dat" {
+			// keep the model's order of position saves and registry saves the real one
+			s.waitPipes()
+			s.syncPipes()
+			break
+		}
+	}
 	_, err := s.srv.Exec("create pipe " + o.Name + " from " + o.Sel)
 	if err != nil {
 		res.Note("%s: create pipe %s: %v", s.sec, o.Name, err)
@@ -636,6 +659,16 @@ func (s *sim) doRmPipe(o hop) {
 	delete(s.pipes, o.Name)
 	s.deleted[o.Name] = true
 	s.expect("rmpipe "+vh.HxS(o.Name), true, "ok", "DeletePipe")
+	if filepath.Base(fn) == "pipes.dat" {
+		// ppipe.delete (its own goroutine) removes the "position file" = the registry file, DeletePipe's savePipes writes it:
+		// the order is not determined; the model removes last, the harness reports when the file is there
+		if _, err := os.Stat(fn); err == nil {
+			s.expect("savepipes", true, "ok", "savePipes after the removal")
+			res.Dist(s.sect, "rmpipe-colliding:registry-file-survived")
+		} else {
+			res.Dist(s.sect, "rmpipe-colliding:registry-file-removed")
+		}
+	}
 }
 
 func (s *sim) doTruncate(o hop) {
@@ -797,13 +830,9 @@ func (s *sim) start(crashKind string) bool {
 		s.dead = true
 		finding := ""
 		if eq {
-			switch {
-			case impl == "refuse:tindex" && cls["cut"] && crashKind == "tindex-cut":
-				finding = "F05"
-			case impl == "refuse:pipes" && cls["collision"] && crashKind != "restart" && crashKind != "fresh":
+			// (F05 — tag-index save — and F41 — registry save — are repaired: a refusal there is a violation again)
+			if impl == "refuse:pipes" && cls["collision"] && crashKind != "restart" && crashKind != "fresh" {
 				finding = "F33"
-			case impl == "refuse:pipes" && crashKind == "stop-cut-inside-pipes.dat":
-				finding = "F41"
 			}
 		}
 		s.specFail("refuse-to-start", "the server does not start on this disk ("+crashKind+")", impl, "starts", mod, eq, finding)
@@ -819,6 +848,11 @@ func (s *sim) start(crashKind string) bool {
 	}
 	// re-bind the real journal ids (they are stable) — nothing to do; remember class flags for the pipe check
 	s.checkPipeSet(cls, eq, crashKind)
+	// baseline of "positions reported to the model": what the model holds after its own start
+	s.lastPos = map[string]string{}
+	for n := range s.pipes {
+		s.lastPos[n] = s.model("ppos "+vh.HxS(n), false)
+	}
 	return true
 }
 
@@ -836,9 +870,11 @@ func (s *sim) checkPipeSet(cls map[string]bool, eq bool, crashKind string) {
 		w := s.pipes[n]
 		g, ok := have[n]
 		if !ok {
+			// (F07 is repaired: definitions are saved on create/delete.) What remains is F33: the position file of a pipe
+			// named like the registry file IS the registry file, and removing it with the pipe removes the registry
 			finding := ""
-			if eq && cls["defslost"] && crashKind != "" && crashKind != "restart" {
-				finding = "F07"
+			if eq && cls["collision"] && cls["defslost"] && crashKind != "" && crashKind != "restart" {
+				finding = "F33"
 			}
 			s.specFail("pipe-definition-lost", "an acknowledged pipe definition is gone after the restart ("+crashKind+")", "pipe "+n+" absent", fmt.Sprint(w), "", eq, finding)
 			delete(s.pipes, n)
@@ -1294,7 +1330,7 @@ func runGraceful(c scase, sec string, sect *vh.Section, rng *vh.Rng) {
 
 // applySteps applies the first k steps of the model's step list by hand; `after` is the content the file has when
 // the save completes
-func applySteps(dirOf func(string) string, steps []string, k int, lenCls string, after []byte) error {
+func applySteps(dirOf func(string) string, steps []string, k int, lenCls string, content func(path string) []byte) error {
 	for i, st := range steps {
 		if i > k {
 			break
@@ -1303,8 +1339,10 @@ func applySteps(dirOf func(string) string, steps []string, k int, lenCls string,
 		switch x[0] {
 		case "rename":
 			if i < k {
-				if err := os.Rename(dirOf(x[1]), dirOf(x[2])); err != nil {
-					return err
+				if _, err := os.Stat(dirOf(x[1])); err == nil { // a rename of a missing file fails and changes nothing
+					if err := os.Rename(dirOf(x[1]), dirOf(x[2])); err != nil {
+						return err
+					}
 				}
 			}
 		case "truncate":
@@ -1313,7 +1351,18 @@ func applySteps(dirOf func(string) string, steps []string, k int, lenCls string,
 					return err
 				}
 			}
+		case "link":
+			if i < k {
+				if _, err := os.Stat(dirOf(x[1])); err == nil {
+					if _, err := os.Stat(dirOf(x[2])); os.IsNotExist(err) {
+						if err := os.Link(dirOf(x[1]), dirOf(x[2])); err != nil {
+							return err
+						}
+					}
+				}
+			}
 		case "append":
+			after := content(x[1])
 			n := len(after)
 			if i == k {
 				switch lenCls {
@@ -1345,7 +1394,7 @@ func applySteps(dirOf func(string) string, steps []string, k int, lenCls string,
 func pathIn(dir string) func(string) string {
 	return func(p string) string {
 		switch {
-		case p == "tindex.dat" || p == "tindex.bak" || p == "tindex.tmp":
+		case p == "tindex.dat" || p == "tindex.bak" || p == "tindex.dat.tmp":
 			return filepath.Join(dir, "tindex", p)
 		case p == "cindex.dat":
 			return filepath.Join(dir, "cindex", p)
@@ -1398,41 +1447,35 @@ func runCrash(c scase, sec string, sect *vh.Section, rng *vh.Rng) {
 			res.Note("%s: %v", sec, err)
 			return
 		}
-		if err := applySteps(pathIn(img), strings.Fields(stepsLine), cs.K, cs.Len, after); err != nil {
+		if err := applySteps(pathIn(img), strings.Fields(stepsLine), cs.K, cs.Len, func(string) []byte { return after }); err != nil {
 			res.Note("%s: applying steps: %v", sec, err)
 			return
 		}
 		v.model(fmt.Sprintf("cutpart %s %s %d %s", vh.HxS(tags), vh.HxS(fmt.Sprintf("j%d", v.nextSrc)), cs.K, cs.Len), true)
-		if cs.K >= 3 || (cs.K == 2 && cs.Len == "f") {
+		if cs.K >= len(strings.Fields(stepsLine)) {
 			// the record reached the disk (the acknowledgement did not): the partition may exist, empty
 			v.parts[tags] = &part{tags: tags, src: p.src, dense: fmt.Sprintf("j%d", v.nextSrc)}
 			v.nextSrc++
 		}
 	case "stop-cut":
 		// crash inside the saves of a graceful shutdown: the final contents come from really stopping the base server
+		stopSteps := strings.Fields(base.model("steps.stop", false))
 		base.srv.Stop()
 		base.srv = nil
 		base.model("stop", true)
 		pd, _ := ioutil.ReadFile(filepath.Join(base.dir, "pipes", "pipes.dat"))
 		cd, _ := ioutil.ReadFile(filepath.Join(base.dir, "cindex", "cindex.dat"))
-		steps := []string{"truncate:pipes/" + vh.HxS("pipes.dat"), "append:pipes/" + vh.HxS("pipes.dat"), "truncate:cindex.dat", "append:cindex.dat"}
-		var err error
-		if cs.K <= 1 {
-			err = applySteps(pathIn(img), steps[:2], cs.K, cs.Len, pd)
-		} else {
-			err = applySteps(pathIn(img), steps[:2], 2, "f", pd)
-			if err == nil {
-				err = applySteps(pathIn(img), steps[2:], cs.K-2, cs.Len, cd)
+		err := applySteps(pathIn(img), stopSteps, cs.K, cs.Len, func(p string) []byte {
+			if p == "cindex.dat" {
+				return cd
 			}
-		}
+			return pd // pipes.dat or its temp file
+		})
 		if err != nil {
 			res.Note("%s: applying steps: %v", sec, err)
 			return
 		}
 		v.model(fmt.Sprintf("cutstop %d %s", cs.K, cs.Len), true)
-		if cs.K == 1 && cs.Len != "f" {
-			kind = "stop-cut-inside-pipes.dat" // truncated, not completely rewritten: F41's class
-		}
 	case "pipesave-cut", "pipeinfo-torn":
 		if _, ok := v.pipes[cs.Pipe]; !ok {
 			return
@@ -1451,7 +1494,7 @@ func runCrash(c scase, sec string, sect *vh.Section, rng *vh.Rng) {
 		}
 		// re-do the last position save on the image, cut
 		steps := []string{"truncate:pipes/" + vh.HxS(filepath.Base(fn)), "append:pipes/" + vh.HxS(filepath.Base(fn))}
-		if err := applySteps(pathIn(img), steps, cs.K, cs.Len, after); err != nil {
+		if err := applySteps(pathIn(img), steps, cs.K, cs.Len, func(string) []byte { return after }); err != nil {
 			res.Note("%s: applying steps: %v", sec, err)
 			return
 		}
@@ -1619,9 +1662,9 @@ func genCrash(rng *vh.Rng, i int) scase {
 	cs := &crashSpec{Kind: crashKinds[i%len(crashKinds)]}
 	switch cs.Kind {
 	case "tindex-cut":
-		cs.K, cs.Len = rng.Range(0, 3), rng.PickS(lenClasses)
+		cs.K, cs.Len = rng.Range(0, 5), rng.PickS(lenClasses)
 	case "stop-cut":
-		cs.K, cs.Len = rng.Range(0, 4), rng.PickS(lenClasses)
+		cs.K, cs.Len = rng.Range(0, 5), rng.PickS(lenClasses)
 	case "pipesave-cut":
 		cs.K, cs.Len = rng.Range(0, 2), rng.PickS(lenClasses)
 		cs.Pipe = rng.PickS(pipeNames)
@@ -1665,17 +1708,18 @@ func exhaustiveCuts() []scase {
 	var cs []scase
 	base := []hop{{Kind: "write", Part: 0, N: 5}, {Kind: "mkpipe", Name: "t", Sel: "g=a"}, {Kind: "write", Part: 0, N: 3}, {Kind: "write", Part: 1, N: 4},
 		{Kind: "restart", Quiesce: true}, {Kind: "write", Part: 1, N: 2}}
-	for k := 0; k <= 3; k++ {
+	// the step lists come from the model at run time; a prefix class matters only where step k is a write
+	for k := 0; k <= 5; k++ {
 		for _, l := range lenClasses {
-			if k != 2 && l != "f" {
+			if k != 1 && l != "f" {
 				continue
 			}
 			cs = append(cs, scase{ChunkSize: 4000, Ops: base, Crash: &crashSpec{Kind: "tindex-cut", K: k, Len: l}})
 		}
 	}
-	for k := 0; k <= 4; k++ {
+	for k := 0; k <= 5; k++ {
 		for _, l := range lenClasses {
-			if k != 1 && k != 3 && l != "f" {
+			if k != 1 && k != 4 && l != "f" {
 				continue
 			}
 			cs = append(cs, scase{ChunkSize: 4000, Ops: base, Crash: &crashSpec{Kind: "stop-cut", K: k, Len: l}})
